@@ -135,6 +135,19 @@ CHECKS = {
              "correspondences); ref_instr.py as definition of occurrences. The theorems are 'at one node': that an occurrence of the node reaches emit_event exactly when a site "
              "exists is C02's business.",
         ref="DESIGN.md section 7 C11"),
+    "C12": dict(
+        technique="Coq proof over the finder / loader decision model (rewritten for exactly the accepting tracers; stock compile otherwise; accepting tracers never switched off) + in-coqc correspondence against real subprocess imports of generated packages + plain / solo / accept-everything process oracle",
+        text="C12_iff (an import through an ordinary source loader on the installing thread is rewritten for EXACTLY the tracers of the stack accepting the file, in stack "
+             "order, and compiled by the stock compiler when none accepts), C12_plain_iff, C12_other_loader / C12_other_thread (never touched), C12_accepting_stay_enabled are "
+             "Qed-closed for every stack and every acceptance function. model/Import.v part 1 transcribes TraceFinder.find_spec, get_tracers_for_path / source_to_code and the "
+             "disabling loop of exec_module; it is tied to import_hooks.py by importing generated packages (sub-package, relative / absolute / from-imports, re-imports, a "
+             "pre-imported module, a post-context import) in ~130 real processes per run: for every stack of 1-3 tracers with independent filename filters the set of tracers "
+             "that got events from each module is compared with compile_of in coqc, and the oracle compares module namespaces with the plain process, every tracer's events with "
+             "its events alone and with its accept-everything run restricted to the accepted files, and checks that nothing is instrumented after the context.",
+        note="Trusted: Coq kernel + vm_compute; hand transcription of the decisions (validated by correspondence); importlib's finder protocol, sys.modules and loaders are not "
+             "modelled; the harness. The recorded finding (tracers switched off during foreign modules' import) is outside the theorems: they decide WHO a module is "
+             "rewritten for, the finding is about delivery while another module's body runs.",
+        ref="DESIGN.md section 7 C12"),
     "C14": dict(
         technique="Coq proof (fold invariant over the two Counters of fix_positions, any number of specs/occurrences) with refutation witnesses + in-coqc correspondence of both functions + placement-record oracle",
         text="C14_cols_partial: for every number of specs with arbitrary length changes, every application order and every multiset of occurrences on a "
